@@ -332,7 +332,7 @@ def build_driver(pid):
     return exe
 
 
-def run_lines(exe, lines, timeout=1800, env=None, cwd=None):
+def run_lines(exe, lines, timeout=1800, env=None, cwd=None, strict=True):
     """Feed text lines to a line-protocol program; returns list of output lines."""
     data = ("\n".join(lines) + "\n").encode()
     r = subprocess.run([exe] if isinstance(exe, str) else exe, input=data, stdout=subprocess.PIPE,
@@ -340,6 +340,8 @@ def run_lines(exe, lines, timeout=1800, env=None, cwd=None):
     out = r.stdout.decode(errors="replace").split("\n")
     if out and out[-1] == "":
         out.pop()
+    if strict and len(out) != len(lines):
+        raise RuntimeError("line protocol broken: %d lines in, %d out (rc=%s) %s" % (len(lines), len(out), r.returncode, r.stderr.decode(errors="replace")[-400:]))
     return out, r.returncode, r.stderr.decode(errors="replace")
 
 
